@@ -431,6 +431,9 @@ func main() {
 			fmt.Fprintf(os.Stderr, "[%s] paths=%d done=%d blocked=%d infeasible=%d forks=%d merges=%d/%d asserts=%d vcs=%d queries=%d (sat %d unsat %d unknown %d, cache %d) solver=%.1fs wall=%.1fs viol=%d known=%d inconcl=%d\n",
 				r.Name, r.Stats.Paths, r.Stats.PathsDone, r.Stats.PathsBlocked, r.Stats.Infeasible, r.Stats.Forks, r.Stats.Merges, r.Stats.MergeAborts,
 				r.Stats.Asserts, r.Stats.VCs, r.Queries, r.Sat, r.UnsatN, r.UnknownN, r.Stats.CacheHits, r.SolverS, r.WallS, len(r.Violations), len(r.Known), len(r.Inconclusive))
+			if opts.debug {
+				fmt.Fprintf(os.Stderr, "[%s] covers: %v\n", r.Name, r.Stats.Covers)
+			}
 			if r.EngineError != "" {
 				fmt.Fprintf(os.Stderr, "[%s] ENGINE ERROR: %s\n", r.Name, r.EngineError)
 			}
@@ -561,6 +564,9 @@ func replayFile(path string) int {
 func finish(prop string, tier, seed int, partial bool, results []HarnessResult, known []KnownFinding, names []string, loadS float64, wall time.Duration, noNative bool) int {
 	tierName := []string{"quick", "thorough"}[tier]
 	exit := 0
+	if !partial {
+		os.RemoveAll(filepath.Join(verifDir, "replays", prop))
+	}
 	internal := false
 	// collect native cases: validations + violation replays
 	var cases []nativeCase
